@@ -1,27 +1,45 @@
 #!/usr/bin/env python3
 """Must-fail corpus runner: every patch is applied to a scratch copy of /repo (never to /repo itself); the
 named functions are re-verified there and an obligation matching `expect` must fail ("none" = negative
-control: nothing may fail). Usage: selftest/run.py [name-prefix ...]   Exit 0 iff every row behaves."""
-import json, os, re, shutil, subprocess, sys, glob, tempfile
+control: nothing may fail). Usage: selftest/run.py [-j N] [name-prefix ...]   Exit 0 iff every row behaves.
+Rows are distributed over N workers (default 6), each with its own scratch copy."""
+import json, os, re, shutil, subprocess, sys, glob, tempfile, threading, queue
 ROOT = '/verif/selftest'
-env = dict(os.environ, GOFLAGS='-mod=mod', GOPROXY='off', GOSUMDB='off', GOTOOLCHAIN='local')
-scratch = tempfile.mkdtemp(prefix='govc-selftest.')
-try:
+base_env = dict(os.environ, GOFLAGS='-mod=mod', GOPROXY='off', GOSUMDB='off', GOTOOLCHAIN='local')
+args = sys.argv[1:]
+jobs = 6
+if args[:1] == ['-j']:
+    jobs = int(args[1]); args = args[2:]
+want = args
+rows = [r for r in sorted(glob.glob(ROOT + '/*.json'))
+        if not want or any(os.path.basename(r).startswith(w) for w in want)]
+q = queue.Queue()
+for r in rows:
+    q.put(r)
+out_lock = threading.Lock()
+bad = [0]
+base = tempfile.mkdtemp(prefix='govc-selftest.')
+
+
+def worker(w):
+    scratch = os.path.join(base, f'w{w}')
+    os.makedirs(scratch)
     subprocess.check_call(['rsync', '-a', '--exclude', '.git', '--exclude', 'test_data', '/repo/', scratch + '/'])
-    env['GOVC_REPO'] = scratch
-    rows = sorted(glob.glob(ROOT + '/*.json'))
-    want = sys.argv[1:]
-    bad = 0
-    for r in rows:
+    env = dict(base_env, GOVC_REPO=scratch, GOVC_DEVDIR=os.path.join(base, f'smt{w}'))
+    while True:
+        try:
+            r = q.get_nowait()
+        except queue.Empty:
+            return
         d = json.load(open(r))
         name = os.path.basename(r)[:-5]
-        if want and not any(name.startswith(w) for w in want):
-            continue
         patch = os.path.join(ROOT, d['patch'])
         p = subprocess.run(['patch', '-p1', '-s', '-d', scratch, '-i', patch], capture_output=True, text=True)
         if p.returncode != 0:
-            print(f'{name}: PATCH-DOES-NOT-APPLY {p.stdout.strip()[:200]}'); bad += 1
             subprocess.run(['patch', '-R', '-p1', '-s', '-f', '-d', scratch, '-i', patch], capture_output=True)
+            subprocess.check_call(['rsync', '-a', '--delete', '--exclude', '.git', '--exclude', 'test_data', '/repo/', scratch + '/'])
+            with out_lock:
+                print(f'{name}: PATCH-DOES-NOT-APPLY {p.stdout.strip()[:200]}'); bad[0] += 1
             continue
         out = subprocess.run(['/verif/bin/govc', 'dev'] + d['funcs'].split(), capture_output=True, text=True, env=env).stdout
         subprocess.check_call(['patch', '-R', '-p1', '-s', '-d', scratch, '-i', patch])
@@ -31,9 +49,18 @@ try:
             ok = not fails and not unsup
         else:
             ok = any(re.search(d['expect'], f) for f in fails) or (d['expect'] == 'hint-mismatch' and bool(unsup))
-        print(f"{name}: {'ok' if ok else 'NOT-AS-EXPECTED'}  expect={d['expect']}  failed={fails[:3]} {unsup[:1]}")
-        bad += 0 if ok else 1
-    print('selftest:', 'all rows behave' if bad == 0 else f'{bad} row(s) misbehave')
-    sys.exit(1 if bad else 0)
+        with out_lock:
+            print(f"{name}: {'ok' if ok else 'NOT-AS-EXPECTED'}  expect={d['expect']}  failed={fails[:3]} {unsup[:1]}", flush=True)
+            bad[0] += 0 if ok else 1
+
+
+try:
+    ts = [threading.Thread(target=worker, args=(i,)) for i in range(min(jobs, max(1, len(rows))))]
+    for t in ts:
+        t.start()
+    for t in ts:
+        t.join()
+    print('selftest:', 'all rows behave' if bad[0] == 0 else f'{bad[0]} row(s) misbehave')
+    sys.exit(1 if bad[0] else 0)
 finally:
-    shutil.rmtree(scratch, ignore_errors=True)
+    shutil.rmtree(base, ignore_errors=True)
